@@ -47,6 +47,9 @@ pub fn main() {
                 if let Some(x) = cfg.get("active_high").and_then(|x| x.as_bool()) { snap.columns_active_high = x; }
             }
             kb.load_snapshot_state(&snap);
+            if cfg.get("no_repeat").and_then(|x| x.as_bool()).unwrap_or(false) {
+                kb.set_repeat_enabled(false);
+            }
             if via_setter {
                 // polarity chosen through the public setter, with no KOL/KOH write afterwards
                 if let Some(x) = cfg.get("active_high").and_then(|x| x.as_bool()) { kb.set_columns_active_high(x); }
